@@ -318,7 +318,11 @@ func RunProgram(rng *rand.Rand, dir string, cfg Config) (rep *Report) {
 			}
 		case k == 4:
 			rep.OpKinds["chmod"]++
-			if rng.Intn(3) == 0 {
+			if rng.Intn(5) == 0 {
+				// the directory itself: a notification WITHOUT an entry name between those of entries
+				rep.OpKinds["chmod-of-a-directory-itself"]++
+				s.Chmod(all[rng.Intn(len(all))], uint32(0o700+rng.Intn(0o100)|0o700))
+			} else if rng.Intn(3) == 0 {
 				s.Utimes(p)
 			} else {
 				s.Chmod(p, uint32(0o600+rng.Intn(0o100)))
